@@ -261,9 +261,11 @@ fn space_at_error(ctx: &Ctx) {
                     return;
                 }
             };
-            for unicode in [true, false] {
+            for (unicode, crlf) in [(true, false), (false, false), (true, true)] {
                 l.evals += 1;
                 let cfg = Cfg { unicode, ..Cfg::default() };
+                // CRLF spelling behind 12 blank lines: same line numbers + 12
+                let (src, line) = if crlf { (format!("{}{}", "\n".repeat(12), src).replace('\n', "\r\n"), line + 12) } else { (src.clone(), line) };
                 match compile(&src, &cfg) {
                     Outcome::Err(e) => {
                         l.validated += 1;
@@ -290,7 +292,7 @@ fn space_at_error(ctx: &Ctx) {
             }
         },
     );
-    ctx.bound(sub, "40-value universe x 5 placements (top level, style rule, mixin argument, function argument, loop + @if) x 2 rendering modes: message = inspect() text, location = line of the directive", true);
+    ctx.bound(sub, "40-value universe x 5 placements (top level, style rule, mixin argument, function argument, loop + @if) x {Unicode, ASCII, Unicode with CRLF terminators behind 12 blank lines}: message = inspect() text, location = line of the directive", true);
     ctx.sample(sub, json!({"input": "@function f($v) {\n\n  @error $v;\n}\na { b: f((a: 1)); }"}));
 }
 
@@ -360,6 +362,27 @@ struct LogCase {
 }
 
 fn build_log_case(k: usize, a: usize, bsel: usize, mode: usize) -> Option<LogCase> {
+    build_log_case_nl(k, a, bsel, mode, "\n")
+}
+
+/// the same case with every line terminated by `nl` (line numbers are unchanged by the spelling of
+/// the terminator) and, for nl != "\n", 12 extra blank lines in front so that a drift accumulates
+fn build_log_case_nl(k: usize, a: usize, bsel: usize, mode: usize, nl: &str) -> Option<LogCase> {
+    let mut c = build_log_case_lf(k, a, bsel, mode)?;
+    if nl != "\n" {
+        let pad = 12;
+        for t in c.files.values_mut() {
+            *t = format!("{}{}", "\n".repeat(pad), t).replace('\n', nl);
+        }
+        for w in c.want.iter_mut() {
+            w.3 += pad;
+        }
+        c.label = format!("{} nl={:?}", c.label, nl);
+    }
+    Some(c)
+}
+
+fn build_log_case_lf(k: usize, a: usize, bsel: usize, mode: usize) -> Option<LogCase> {
     let ls = log_stmts();
     let (lib, main) = shape(k, &ls[a], &ls[bsel])?;
     let mut all = lib.clone();
@@ -427,25 +450,26 @@ fn run_log_case(c: &LogCase, quiet: bool, unicode: bool) -> Result<Vec<(String, 
 fn space_logs(ctx: &Ctx) {
     let sub = "log-delivery";
     let nl = log_stmts().len();
-    let n = (NSHAPES * nl * nl * 3) as u64;
-    let decode = |i: u64| -> (usize, usize, usize, usize) {
+    let nls = ["\n", "\r\n", "\r"];
+    let n = (NSHAPES * nl * nl * 3 * nls.len()) as u64;
+    let decode = |i: u64| -> (usize, usize, usize, usize, &'static str) {
         let i = i as usize;
-        (i % NSHAPES, (i / NSHAPES) % nl, (i / NSHAPES / nl) % nl, i / NSHAPES / nl / nl)
+        (i % NSHAPES, (i / NSHAPES) % nl, (i / NSHAPES / nl) % nl, (i / NSHAPES / nl / nl) % 3, nls[i / NSHAPES / nl / nl / 3])
     };
     par(
         ctx,
         sub,
         n,
         |i| {
-            let (k, a, b2, m) = decode(i);
-            match build_log_case(k, a, b2, m) {
+            let (k, a, b2, m, e) = decode(i);
+            match build_log_case_nl(k, a, b2, m, e) {
                 Some(c) => json!({"files": c.files, "label": c.label}),
                 None => json!(null),
             }
         },
         |i, l| {
-            let (k, a, b2, m) = decode(i);
-            let c = match build_log_case(k, a, b2, m) {
+            let (k, a, b2, m, e) = decode(i);
+            let c = match build_log_case_nl(k, a, b2, m, e) {
                 Some(c) => c,
                 None => {
                     l.count("skipped_reference_fails", 1);
@@ -473,9 +497,13 @@ fn space_logs(ctx: &Ctx) {
                                 v.iter().map(|(k, m, f, ln)| (k.clone(), if k == "warn" && m.len() >= 2 && m.starts_with('"') && m.ends_with('"') { m[1..m.len() - 1].to_string() } else { m.clone() }, f.clone(), *ln)).collect()
                             };
                             if unq(&got) != unq(&want) {
+                                // one root cause, one key: locations count LF only, so in a file whose lines end in a
+                                // lone CR every delivery is reported on line 1 (everything else equal)
+                                let strip = |v: Vec<(String, String, String, usize)>| -> Vec<(String, String, String)> { v.into_iter().map(|x| (x.0, x.1, x.2)).collect() };
+                                let cr_lines_only = e == "\r" && strip(unq(&got)) == strip(unq(&want)) && got.iter().all(|x| x.3 == 1);
                                 ctx.violation(
                                     sub,
-                                    &format!("log:{}:quiet={}", c.label, quiet),
+                                    &if cr_lines_only { "log:line-terminator:cr:line-numbers".to_string() } else { format!("log:{}:quiet={}", c.label, quiet) },
                                     &format!("the Logger received {:?}; the reference delivers {:?} (quiet={}, unicode={})", got, want, quiet, unicode),
                                     json!({"files": c.files, "quiet": quiet}),
                                 );
@@ -490,10 +518,62 @@ fn space_logs(ctx: &Ctx) {
             }
         },
     );
-    ctx.bound(sub, "12 program shapes (sequence, @for, @each with a repeated element, mixin included 3 times, function called 3 times in one expression, content block run twice, mixin inside a loop + @if, nested style rules, @while, function in a default argument, untaken branches, @return from a loop) x 7x7 pairs of @debug/@warn statements (loop variable, constant, computed, list, non-ASCII messages) x {one file, library via @import, library via @use as *} x 5 executions on one thread (plain, quiet, quiet+ASCII, ASCII, plain again); kind, message, file and line of every delivery, in order", true);
+    ctx.bound(sub, "12 program shapes (sequence, @for, @each with a repeated element, mixin included 3 times, function called 3 times in one expression, content block run twice, mixin inside a loop + @if, nested style rules, @while, function in a default argument, untaken branches, @return from a loop) x 7x7 pairs of @debug/@warn statements (loop variable, constant, computed, list, non-ASCII messages) x {one file, library via @import, library via @use as *} x {LF, CRLF, CR line terminators (the latter two behind 12 blank lines)} x 5 executions on one thread (plain, quiet, quiet+ASCII, ASCII, plain again); kind, message, file and line of every delivery, in order", true);
     if let Some(c) = build_log_case(3, 1, 2, 1) {
         ctx.sample(sub, json!({"files": c.files, "expected": c.want}));
     }
+}
+
+// ---- warnings raised by the evaluator itself -----------------------------------------------------------
+
+fn space_evaluator_warnings(ctx: &Ctx) {
+    let sub = "evaluator-warnings";
+    // every program makes the compiler itself warn once (not through @warn); (source, line of the warning)
+    let progs: Vec<(&str, usize)> = vec![
+        ("@use \"sass:meta\";\na {\n  @include meta.load-css(\"lib\", $with: (a: 1));\n}\n", 3),
+        ("@use \"sass:meta\";\n\n@include meta.load-css(\"lib\", $with: (a: 1, b: 2));\n", 3),
+        ("@use \"sass:meta\";\n@mixin m { @include meta.load-css(\"lib\", $with: ()); }\n\n\na { @include m; }\n", 2),
+    ];
+    let n = (progs.len() * 4) as u64;
+    par(
+        ctx,
+        sub,
+        n,
+        |i| json!({"input": progs[i as usize % progs.len()].0, "config": i as usize / progs.len()}),
+        |i, l| {
+            let (src, line) = progs[i as usize % progs.len()];
+            let quiet = (i as usize / progs.len()) % 2 == 1;
+            let unicode = (i as usize / progs.len()) / 2 == 1;
+            let mut fs = MemFs::new();
+            fs.add("e.scss", src);
+            fs.add("_lib.scss", "lib { x: y; }\n");
+            let lg = CollectLogger::new();
+            let cfg = Cfg { syntax: None, quiet, unicode, ..Cfg::default() };
+            l.evals += 1;
+            let o = compile_path("e.scss", &cfg, &Env { fs: &fs, logger: &lg });
+            let logs = lg.take();
+            l.validated += 1;
+            l.outcome(digest_str(&format!("{:?}", logs)));
+            let key = format!("eval-warning:{}:quiet={}", i as usize % progs.len(), quiet);
+            if !o.is_ok() {
+                ctx.violation(sub, &key, &format!("the program must compile: {}", o.brief()), json!({"input": src}));
+                return;
+            }
+            if quiet {
+                if !logs.is_empty() {
+                    ctx.violation(sub, &key, &format!("with quiet the Logger received {:?}", logs.iter().map(|e| e.json()).collect::<Vec<_>>()), json!({"input": src, "quiet": true}));
+                }
+            } else {
+                l.nontrivial += 1;
+                let ok = logs.len() == 1 && logs[0].kind == "warn" && logs[0].line + 1 == line && logs[0].file.ends_with("e.scss");
+                if !ok {
+                    ctx.violation(sub, &key, &format!("expected exactly one warning located at e.scss line {}; the Logger received {:?}", line, logs.iter().map(|e| e.json()).collect::<Vec<_>>()), json!({"input": src}));
+                }
+            }
+        },
+    );
+    ctx.bound(sub, "3 programs on which the compiler itself warns (meta.load-css with $with, the only non-@warn warning grass raises) x quiet x unicode: one located delivery, none under quiet", true);
+    ctx.sample(sub, json!({"input": progs[0].0}));
 }
 
 // ---- silence ------------------------------------------------------------------------------------------
@@ -664,6 +744,7 @@ pub fn run(ctx: &Ctx) {
     space_imports(ctx);
     space_at_error(ctx);
     space_logs(ctx);
+    space_evaluator_warnings(ctx);
     space_silence(ctx);
     ctx.assume("the message of a repeated @warn (same directive, same text) is delivered once per execution, as the reference implementation does; @debug is delivered on every execution");
     ctx.assume("locations are compared as 0-based (line, column-in-characters) pairs against the text supplied for the named file; a column may sit on the line terminator");
